@@ -373,4 +373,100 @@ theorem recordItems_total {r : Rec} (h : r.rendered = true → ∀ i, GroupWF (g
     exact groupItems_total (h hr i)
   · exact ⟨[], rfl⟩
 
+/-! ### the converse: when `get_runlog` returns, the record list was well-formed -/
+
+theorem checkOrdered_tail : ∀ (rest : List St) (a : St), checkOrdered (a :: rest) = .ok () → checkOrdered rest = .ok ()
+  | [], _, _ => rfl
+  | b :: rest, a, h => by
+    unfold checkOrdered at h
+    split at h
+    · cases h
+    · split at h
+      · cases h
+      · split at h
+        · cases h
+        · exact h
+
+theorem checkOrdered_head_tick_le : ∀ (rest : List St) (a : St), checkOrdered (a :: rest) = .ok () →
+    ∀ b ∈ rest, a.tick ≤ b.tick
+  | [], _, _ => by simp
+  | b :: rest, a, h => by
+    have h0 := h
+    unfold checkOrdered at h
+    split at h
+    · cases h
+    · split at h
+      · cases h
+      · rename_i _ hk
+        have hab : a.tick ≤ b.tick := by simpa using hk
+        split at h
+        · cases h
+        · intro c hc
+          rcases List.mem_cons.mp hc with rfl | hc
+          · exact hab
+          · exact Int.le_trans hab (checkOrdered_head_tick_le rest b h c hc)
+
+theorem checkOrdered_ordered : ∀ (g : List St), checkOrdered g = .ok () → Ordered g
+  | [], _ => List.Pairwise.nil
+  | a :: rest, h => by
+    unfold Ordered
+    rw [List.pairwise_cons]
+    exact ⟨fun b hb => ⟨checkOrdered_head_tick_le rest a h b hb, checkOrdered_head_le rest a h b hb⟩,
+      checkOrdered_ordered rest (checkOrdered_tail rest a h)⟩
+
+theorem loop_conclLast : ∀ (sts : List St) (it : Item) (cmd : CmdKind) (out : List Item),
+    loop (some it) cmd sts = .ok out → ConclLast sts
+  | [], _, _, _, _ => List.Pairwise.nil
+  | st :: rest, it, cmd, out, h => by
+    unfold loop at h
+    simp only at h
+    unfold ConclLast
+    rw [List.pairwise_cons]
+    split at h
+    · cases hl : loop none CmdKind.none rest with
+      | error e => simp [hl] at h
+      | ok out' =>
+        obtain ⟨hr, _⟩ := loop_none hl
+        subst hr
+        exact ⟨by simp, List.Pairwise.nil⟩
+    · rename_i hc
+      have hcon' : st.name.conclusive = false := by
+        cases hcon : st.name.conclusive with
+        | false => rfl
+        | true =>
+          have ha := applyState_conclusive it cmd st hcon
+          simp only at ha
+          simp [hcon, ha.2.2.2.2.1] at hc
+      exact ⟨fun _ _ => hcon', loop_conclLast rest _ _ out h⟩
+
+theorem groupItems_ok_wf {g : List St} {out : List Item} (h : groupItems g = .ok out) : GroupWF g := by
+  unfold groupItems at h
+  cases hc : checkOrdered g with
+  | error e => simp [hc] at h
+  | ok u =>
+    simp [hc] at h
+    refine ⟨checkOrdered_ordered g hc, ?_⟩
+    cases g with
+    | nil => exact List.Pairwise.nil
+    | cons a rest => exact loop_conclLast _ _ _ out h
+
+theorem recordItems_ok_wf {r : Rec} {out : List Item} (h : recordItems r = .ok out) (hr : r.rendered = true) :
+    ∀ i, GroupWF (group r.states i) := by
+  intro i
+  unfold recordItems at h
+  simp only [hr, if_true] at h
+  by_cases hi : i ∈ r.states.map (·.inst)
+  · have hg : group r.states i ∈ split r.states := by
+      simp only [split, List.mem_map]
+      exact ⟨i, mem_dedup.mpr hi, rfl⟩
+    obtain ⟨o, ho, _⟩ := collect_ok_all h _ hg
+    exact groupItems_ok_wf ho
+  · have : group r.states i = [] := by
+      unfold group
+      rw [List.filter_eq_nil_iff]
+      intro st hst hsi
+      exact hi (List.mem_map.mpr ⟨st, hst, by simpa using hsi⟩)
+    rw [this]
+    exact ⟨List.Pairwise.nil, List.Pairwise.nil⟩
+
 end OPM.RunLog
